@@ -16,6 +16,7 @@ import (
 	"math/big"
 	"net"
 	"os"
+	"path/filepath"
 	"strings"
 	"sync"
 	"time"
@@ -64,10 +65,24 @@ func tmpl(cn string, ca bool, notAfter time.Time) *x509.Certificate {
 	return t
 }
 
+// hostRootsFile is the temporary file that stands for the host's trust store (removed by the commands that create a PKI).
+var hostRootsFile string
+
 func newPKI() *pki {
 	far := time.Now().Add(24 * 365 * time.Hour)
 	root, rootKey, rootDer := mint(tmpl("verif-root", true, far), nil, nil)
-	foreign, foreignKey, _ := mint(tmpl("foreign-root", true, far), nil, nil)
+	foreign, foreignKey, foreignDer := mint(tmpl("foreign-root", true, far), nil, nil)
+	// the foreign root is what this host trusts for the public internet (the system trust store of this process): a server
+	// that takes its client CAs from anywhere but the configured CA file accepts the "foreignca" client
+	// (written to the working directory, which is the check's scratch directory)
+	if f, err := os.CreateTemp(".", "verif-host-roots-*.pem"); err == nil {
+		f.Write(pem.EncodeToMemory(&pem.Block{Type: "CERTIFICATE", Bytes: foreignDer}))
+		f.Close()
+		abs, _ := filepath.Abs(f.Name())
+		os.Setenv("SSL_CERT_FILE", abs)
+		os.Setenv("SSL_CERT_DIR", abs+".d")
+		hostRootsFile = abs
+	}
 	p := &pki{rootPool: x509.NewCertPool(), clients: map[string][]tls.Certificate{}}
 	p.rootPool.AddCert(root)
 	st := tmpl("localhost", false, far)
